@@ -94,7 +94,9 @@ fn with_methods(mut hs: v::HandlerSet, methods: &[Value], np: usize, id: i64, lo
     macro_rules! reg { ($hs:ident, $m:ident, $h:expr) => { $hs = match local.len() {
         0 => $hs.$m($h),
         1 => $hs.$m((local[0].clone(), $h)),
-        _ => $hs.$m((local[0].clone(), local[1].clone(), $h)),
+        2 => $hs.$m((local[0].clone(), local[1].clone(), $h)),
+        3 => $hs.$m((local[0].clone(), local[1].clone(), local[2].clone(), $h)),
+        _ => $hs.$m((local[0].clone(), local[1].clone(), local[2].clone(), local[3].clone(), $h)),
     } } }
     macro_rules! reg_all { ($m:ident) => { match handler_for!(np, id) {
         HandlerKind::H0(id) => reg!(hs, $m, move || async move { echo0(id) }),
@@ -114,7 +116,11 @@ pub fn build_app(apps: &[Value], idx: usize, t: &Table, early: i64, pbase: usize
         1 => Ohkami::with((fangs[0].clone(),), ()),
         2 => Ohkami::with((fangs[0].clone(), fangs[1].clone()), ()),
         3 => Ohkami::with((fangs[0].clone(), fangs[1].clone(), fangs[2].clone()), ()),
-        _ => Ohkami::with((fangs[0].clone(), fangs[1].clone(), fangs[2].clone(), fangs[3].clone()), ()),
+        4 => Ohkami::with((fangs[0].clone(), fangs[1].clone(), fangs[2].clone(), fangs[3].clone()), ()),
+        5 => Ohkami::with((fangs[0].clone(), fangs[1].clone(), fangs[2].clone(), fangs[3].clone(), fangs[4].clone()), ()),
+        6 => Ohkami::with((fangs[0].clone(), fangs[1].clone(), fangs[2].clone(), fangs[3].clone(), fangs[4].clone(), fangs[5].clone()), ()),
+        7 => Ohkami::with((fangs[0].clone(), fangs[1].clone(), fangs[2].clone(), fangs[3].clone(), fangs[4].clone(), fangs[5].clone(), fangs[6].clone()), ()),
+        _ => Ohkami::with((fangs[0].clone(), fangs[1].clone(), fangs[2].clone(), fangs[3].clone(), fangs[4].clone(), fangs[5].clone(), fangs[6].clone(), fangs[7].clone()), ()),
     };
     for it in arr(&app["items"]) {
         let tag = if s(&it["t"]) == "route" { format!("h{}", i(&it["h"])) } else { format!("m{}", i(&it["app"])) };
@@ -187,7 +193,8 @@ pub fn gen(rng: &mut Rng, idx: usize) -> Value {
     let c04 = idx % 2 == 1;
     let napps = rng.range(1, 3);
     let segstr = [vec!["a"], vec!["b"], vec!["a", "b"], vec!["a", "a"], vec!["b", "a"], vec!["a", "b", "a"], vec!["a", "-", "a"], vec!["a", ".", "b"], vec!["b", "-", "a"]];
-    let mut apps: Vec<(Vec<i64>, Vec<Value>)> = (0..napps).map(|a| ((0..rng.below(3)).map(|k| (10 * (a + 1) + k + 1) as i64).collect(), vec![])).collect();
+    let mut apps: Vec<(Vec<i64>, Vec<Value>)> = (0..napps).map(|a| { let nf = if rng.chance(1, 4) { rng.range(3, 8) } else { rng.below(3) };      // (every tuple arity of `Fangs`: 1..8)
+                                                                             ((0..nf).map(|k| (10 * (a + 1) + k + 1) as i64).collect(), vec![]) }).collect();
     let mut nexth = 1i64;
     // params above each app
     let mut pabove = vec![0usize; napps];
@@ -229,7 +236,7 @@ pub fn gen(rng: &mut Rng, idx: usize) -> Value {
             let clash = apps[a].1.iter().any(|it| if s(&it["t"]) == "route" { arr(&it["segs"]) == &r[..] } else { under(&r, arr(&it["segs"])) });
             if clash { continue }
             let ms: Vec<&str> = match rng.below(4) { 0 => vec!["GET"], 1 => vec!["POST"], 2 => vec!["GET", "POST"], _ => vec!["GET", "PUT"] };
-            let local: Vec<i64> = if c04 { (0..rng.below(3)).map(|k| 7 + k as i64).collect() } else { vec![] };
+            let local: Vec<i64> = if c04 { (0..(if rng.chance(1, 4) { rng.range(3, 4) } else { rng.below(3) })).map(|k| 7 + k as i64).collect() } else { vec![] };   // local fangs: 1..4
             apps[a].1.push(json!({"t": "route", "segs": r, "methods": ms, "local": local, "h": nexth, "app": 0})); nexth += 1;
         }
         if !apps[a].1.iter().any(|it| s(&it["t"]) == "route") {
